@@ -36,7 +36,11 @@ void j_sqrt_neg(Ctx & c, int64_t x, int64_t, int64_t)
   c.stratum("sqrt-negative"); if(x > -8 || x <= RAW_LOWEST + 4 || model_isnan(x)) c.nontrivial(hash3(131, x, 0));
   for(size_t ci = 0; ci < g_cfgs.size(); ++ci)
     for(int k = 0; k < 3; ++k)
-      { CALLG(r, SQRT3[k], x, 0) if(!model_isnan(r.v)) c.violation(SQRT3[k].entry + "/negative-argument/not-nan", (int)ci, x, 0, 0, i2s(r.v), "NaN"); }
+      {
+      // a -ffast-math build gives up IEEE NaN: the std::sqrt path signals a negative argument through a double NaN
+      if(g_cfgs[ci].fastmath && !(k == 1 || (k == 0 && g_cfgs[ci].sqrt_algo == 1))) continue;
+      CALLG(r, SQRT3[k], x, 0) if(!model_isnan(r.v)) c.violation(SQRT3[k].entry + "/negative-argument/not-nan", (int)ci, x, 0, 0, i2s(r.v), "NaN");
+      }
   }
 void j_sqrt_mono(Ctx & c, int64_t x, int64_t y, int64_t)
   {
@@ -234,6 +238,32 @@ void j_angle_aprox(Ctx & c, int64_t d, int64_t, int64_t)
     if(fabsl((long double)b.v - co) > 2.0L + 1e-6L) c.violation(std::string("cos_angle_aprox/") + cls + "/beyond-2ulp", (int)ci, d, 0, 0, i2s(b.v), ld2s(co));
     }
   }
+// the argument object at the call site has a narrower static type than the declared int32_t / uint16_t parameter
+struct TypedAngle { const char * tag; int type_index; Fn sin_ap, cos_ap; };
+std::vector<TypedAngle> TYPED_ANGLE;
+Fn SIN_TAB_U8, COS_TAB_U8;
+void j_angle_aprox_typed(Ctx & c, int64_t araw, int64_t which, int64_t)
+  {
+  if(which < 0 || which >= (int64_t)TYPED_ANGLE.size()) return;
+  TypedAngle & t = TYPED_ANGLE[(size_t)which];
+  int64_t d = (int64_t)int_value(INT_TYPES[t.type_index], araw);
+  c.stratum("angle-argument-of-narrower-type"); if(d < 0 || d > 359) c.nontrivial(hash3(195, d, which));
+  int64_t m = ((d % 360) + 360) % 360;
+  long double x = (long double)m * PI_L / 180.0L, s = sinl(x) * 65536, co = cosl(x) * 65536;
+  for(size_t ci = 0; ci < g_cfgs.size(); ++ci)
+    {
+    CALLG(a, t.sin_ap, araw, 0) CALLG(b, t.cos_ap, araw, 0)
+    const char * cls = d < 0 ? "negative-angle" : "non-negative-angle";
+    if(fabsl((long double)a.v - s) > 2.0L + 1e-6L) c.violation(t.sin_ap.entry + "/" + cls + "/beyond-2ulp", (int)ci, araw, which, 0, i2s(a.v), ld2s(s));
+    if(fabsl((long double)b.v - co) > 2.0L + 1e-6L) c.violation(t.cos_ap.entry + "/" + cls + "/beyond-2ulp", (int)ci, araw, which, 0, i2s(b.v), ld2s(co));
+    if(which == 2)
+      { // uint8_t index into the 361-entry tables
+      CALLG(ts, SIN_TAB_U8, araw, 0) CALLG(tc, COS_TAB_U8, araw, 0)
+      if(fabsl((long double)ts.v - s) > 2.0L + 1e-6L) c.violation("sin_angle_tab_u8/entry-beyond-2ulp", (int)ci, araw, which, 0, i2s(ts.v), ld2s(s));
+      if(fabsl((long double)tc.v - co) > 2.0L + 1e-6L) c.violation("cos_angle_tab_u8/entry-beyond-2ulp", (int)ci, araw, which, 0, i2s(tc.v), ld2s(co));
+      }
+    }
+  }
 void j_sqrt_aprox(Ctx & c, int64_t x, int64_t, int64_t)
   {
   if(x == INT64_MIN) return;
@@ -280,6 +310,10 @@ void c19_init()
   {
   for(int k = 0; k < 8; ++k) { SINIT[k] = resolve((std::string("sinit_") + SINIT_NAMES[k]).c_str()); SNOW[k] = resolve((std::string("snow_") + SINIT_NAMES[k]).c_str()); }
   SIN_TAB = resolve("sin_angle_tab"); COS_TAB = resolve("cos_angle_tab"); TAN_TAB = resolve("tan_tab"); SQRT_TAB = resolve("square_root_tab");
+  if(TYPED_ANGLE.empty())
+    for(auto tt : { std::pair<const char *, int>{ "i8", 0 }, { "i16", 1 }, { "u8", 4 }, { "u16", 5 } })
+      TYPED_ANGLE.push_back({ tt.first, tt.second, resolve((std::string("sin_angle_aprox_") + tt.first).c_str()), resolve((std::string("cos_angle_aprox_") + tt.first).c_str()) });
+  SIN_TAB_U8 = resolve("sin_angle_tab_u8"); COS_TAB_U8 = resolve("cos_angle_tab_u8");
   SIN_AP = resolve("sin_angle_aprox"); COS_AP = resolve("cos_angle_aprox"); SQRT_AP = resolve("sqrt_aprox"); ATAN_IDX = resolve("atan_index_aprox");
   }
 extern Property P_C19;
@@ -297,6 +331,9 @@ void c19_run(Ctx & c)
     for(int64_t d = -1000000 + c.shard; d <= 1000000; d += c.nshards) c.run_check(ANG, d);
     for(int64_t d = (int64_t)INT32_MIN + c.shard * 4093; d <= INT32_MAX; d += (int64_t)c.nshards * 4093) c.run_check(ANG, d);
     }
+  { const Check & AT = P_C19.checks[5];
+    for(int64_t w = 0; w < (int64_t)TYPED_ANGLE.size(); ++w)
+      { const IntType & t = INT_TYPES[TYPED_ANGLE[(size_t)w].type_index]; for(int64_t v = (int64_t)t.lo + c.shard; v <= (int64_t)t.hi; v += c.nshards) c.run_check(AT, v, w); } }
   if(c.shard == 0) for(int64_t d : { (int64_t)INT32_MIN, (int64_t)INT32_MIN + 1, (int64_t)INT32_MAX, (int64_t)INT32_MAX - 1, (int64_t)-360, (int64_t)-361, (int64_t)-359, (int64_t)-1, (int64_t)361, (int64_t)720 }) c.run_check(ANG, d);
   // sqrt_aprox
   int64_t W = c.thorough ? (1ll << 26) : (1ll << 21);
@@ -322,8 +359,9 @@ Property P_C19 = { "C19", c19_init, c19_run,
     { "angle_aprox", j_angle_aprox, "sin_angle_aprox(d), cos_angle_aprox(d) within 2 ulp of sin/cos(d degrees); a = int32 d" },
     { "sqrt_aprox", j_sqrt_aprox, "relative error <= 2% on [2^-16, 2^21), 0 at 0, NaN below 0; a = raw" },
     { "atan_index", j_atan_index, "|atan_index_aprox(x) - atan(x)*128/pi| <= 1.25; a = raw, |x| < 2^47" },
-    { "static_init", j_static_init, "the compiled table functions called from a static initialiser of another translation unit (linked before fixed_math.cc) return what they return from main; a = probe 0..11, b = function 0..7" } },
-  { "table-entry", "angle-negative", "angle>360", "angle-in-[0,360]", "sqrt_aprox-negative", "sqrt_aprox-zero", "sqrt_aprox-positive", "atan_index-negative", "atan_index-non-negative" },
+    { "static_init", j_static_init, "the compiled table functions called from a static initialiser of another translation unit (linked before fixed_math.cc) return what they return from main; a = probe 0..11, b = function 0..7" },
+    { "angle_aprox_typed", j_angle_aprox_typed, "sin/cos_angle_aprox(d) with d an int8_t, int16_t, uint8_t or uint16_t object (and sin/cos_angle_tab with a uint8_t index): every value of the type; a = value, b = type 0..3" } },
+  { "angle-argument-of-narrower-type", "table-entry", "angle-negative", "angle>360", "angle-in-[0,360]", "sqrt_aprox-negative", "sqrt_aprox-zero", "sqrt_aprox-positive", "atan_index-negative", "atan_index-non-negative" },
   "every table entry; angles outside [0,359]; sqrt_aprox arguments <= 0, below 64 raw or >= 2^36 raw; atan_index arguments below 1024 raw or above 2^22 raw; distinct by argument",
   { "all 361+361+255+256 table entries", "every angle in [-10^6,10^6]", "every raw x in [0,2^21) for sqrt_aprox", "every raw |x| <= 2^20 for atan_index_aprox" },
   { "all 361+361+255+256 table entries", "all 2^32 int32 angles", "every raw x in [0,2^26) for sqrt_aprox", "every raw |x| <= 2^24 for atan_index_aprox" } };
